@@ -111,6 +111,7 @@ struct Sim<'a> {
     scripts: Vec<(Vec<Op>, Vec<String>)>,
     next_tag: u64,
     bare_dates: Vec<i64>,
+    dirty: BTreeSet<u64>,
 }
 
 pub fn snapshot_digest(s: &VerifSnapshot) -> u64 {
@@ -157,6 +158,7 @@ impl<'a> Sim<'a> {
             scripts: Vec::new(),
             next_tag: 1,
             bare_dates: Vec::new(),
+            dirty: BTreeSet::new(),
         };
         match case_layer {
             Layer::Bare => {
@@ -249,8 +251,14 @@ impl<'a> Sim<'a> {
             self.ctx, "C08", "backtest-set", what, ids == expected_ids,
             "{what}: set of backtests changed from {:?} to {:?}", expected_ids, ids
         );
-        for id in ids {
+        // with very many backtests only a fixed sample is digested after every request (the oldest
+        // sixteen, which carry the state, and every 64th); the set of ids above is always compared in full
+        let many = ids.len() > 64;
+        for (pos, id) in ids.into_iter().enumerate() {
             if Some(id) == addressed {
+                continue;
+            }
+            if many && pos >= 16 && pos % 64 != 0 {
                 continue;
             }
             let now = self.bt_digest(id);
@@ -301,6 +309,11 @@ impl<'a> Sim<'a> {
     // --------------------------------------------------------------------------------------------
 
     fn exec(&mut self, op: &Op) {
+        if !self.dirty.is_empty() && !matches!(op, Op::Insert { light: true, .. }) {
+            for id in std::mem::take(&mut self.dirty) {
+                self.refresh_digest(id);
+            }
+        }
         self.ctx.ops += 1;
         self.ctx.ileave(op.client(), op.bt().unwrap_or(u64::MAX), op.kind());
         let r = catch(|| self.exec_inner(op));
@@ -453,8 +466,14 @@ impl<'a> Sim<'a> {
                         self.check_clock(h, "insert_order");
                     }
                 }
-                self.check_others_untouched(Some(bt), "insert_order");
-                self.refresh_digest(bt);
+                if light {
+                    // inside a big burst: the digests are brought up to date once, before the next
+                    // operation that is not part of the burst
+                    self.dirty.insert(bt);
+                } else {
+                    self.check_others_untouched(Some(bt), "insert_order");
+                    self.refresh_digest(bt);
+                }
             }
         }
     }
@@ -902,6 +921,7 @@ struct GenCfg {
     dup_p: f64,
     resubmit_p: f64,
     mass_create: bool,
+    giant_burst: bool,
     preset_id_p: f64,
     unknown_symbol_p: f64,
 }
@@ -1000,7 +1020,8 @@ impl Gen {
             frac_shares_p: *c.pick(&[0.0, 0.1]),
             dup_p: *c.pick(&[0.0, 0.2, 0.6]),
             resubmit_p: *c.pick(&[0.0, 0.05, 0.2]),
-            mass_create: thorough && focus == "C08" && crate::common::long_run(seed, tier) && c.one_in(4),
+            mass_create: focus == "C08" && c.one_in(if thorough { 40 } else { 400 }),
+            giant_burst: c.one_in(if thorough { 60 } else { 400 }),
             preset_id_p: *c.pick(&[0.0, 0.0, 0.1]),
             unknown_symbol_p: *c.pick(&[0.0, 0.03]),
         };
@@ -1069,6 +1090,25 @@ impl Gen {
             return None;
         }
         self.issued += 1;
+        if self.cfg.giant_burst && self.issued == self.cfg.max_ops / 3 + 1 {
+            // one batch larger than any buffer bound or sweep threshold a maintainer is likely to pick
+            self.cfg.giant_burst = false;
+            let live: Vec<usize> = (0..sim.bts.len()).filter(|h| !sim.bts[*h].aliased).collect();
+            if let Some(&h) = live.first() {
+                sim.ctx.bump("f12_giant_bursts");
+                let saved = std::mem::replace(&mut self.cfg.burst_sizes, &[4100, 4500, 5000]);
+                let owner = sim.bts[h].owner;
+                self.burst(sim, owner, h);
+                self.cfg.burst_sizes = saved;
+                let bt = sim.bts[h].id;
+                if sim.layer == Layer::Server {
+                    // tick twice so that the batch is admitted and then matched
+                    self.queue.push_back(Op::Tick { client: owner, bt });
+                    self.queue.push_back(Op::Tick { client: owner, bt });
+                }
+                return self.queue.pop_front();
+            }
+        }
         if self.cfg.mass_create && sim.layer == Layer::Server && self.issued == self.cfg.max_ops / 2 {
             // a server that has handed out more than a thousand backtests
             self.cfg.mass_create = false;
